@@ -17,10 +17,12 @@ from sim import core  # noqa: E402
 from sim.core import Check, EventLog, Result, excname, payload, sut  # noqa
 
 DS = "/simfs/ds"
+WATCHDOG_CPU_S = 10.0
 
 
-class Hang(Exception):
-    pass
+class Hang(BaseException):
+    """Raised by the watchdog.  A BaseException so that neither sut() nor
+    the repository's ``except Exception`` clauses can absorb it."""
 
 
 def _on_alarm(signum, frame):
@@ -44,7 +46,8 @@ class C10(Check):
         "frame itself is C18's subject)",
         "an array result is accepted whatever its values (a decoder cannot "
         "know the original), provided shape and dtype are exact",
-        "hang = a single decode exceeding a 5 s watchdog",
+        "hang = a single decode consuming more than 10 s of CPU time "
+        "(ITIMER_PROF watchdog; CPU time, so machine load cannot trigger it)",
         "the uncorrupted control read of every scenario must succeed and "
         "equal the written array",
     ]
@@ -65,7 +68,7 @@ class C10(Check):
         simfs.install()
         simproc.install()
         simenv.install_clock()
-        signal.signal(signal.SIGALRM, _on_alarm)
+        signal.signal(signal.SIGPROF, _on_alarm)
 
     # ------------------------------------------------------------------
     def gen(self, rng, tier, idx):
@@ -179,8 +182,13 @@ class C10(Check):
                     break
                 i += 2 + ln
             if sof is not None and sof + 10 <= L:
-                which = c["a"] % 4
+                which = c["a"] % 5
                 dims = [0, 1, 2, 7, 255, 65535, c["b"] % 64]
+                if which == 4:      # both dimensions (huge / tiny images)
+                    big = [65535, 30000, 20000, 1, 0][c["b"] % 5]
+                    struct.pack_into(">HH", buf, sof + 5, big,
+                                     [65535, 30000, 3][c["seed"] % 3])
+                    return "jpeg_sof", bytes(buf)
                 if which == 0:
                     struct.pack_into(">H", buf, sof + 5,
                                      dims[c["b"] % len(dims)])   # height
@@ -280,11 +288,13 @@ class C10(Check):
             with mounted(fs):
                 a = get_accessor_for_url(DS, {})
                 p = precomputed_io.get_IO_for_existing_dataset(a)
-                signal.setitimer(signal.ITIMER_REAL, 5.0)
+                # CPU-time watchdog (ITIMER_PROF): wall-clock time would
+                # make the oracle depend on machine load
+                signal.setitimer(signal.ITIMER_PROF, WATCHDOG_CPU_S)
                 try:
                     return sut(p.read_chunk, "k", co0)
                 finally:
-                    signal.setitimer(signal.ITIMER_REAL, 0)
+                    signal.setitimer(signal.ITIMER_PROF, 0)
 
         # control: valid data is never rejected
         fs = base.clone(log) if not sharded else SimFS(log=log)
@@ -332,7 +342,7 @@ class C10(Check):
             narrow = {"corruptions": [c]}
             if st == "hang":
                 outcome = "hang"
-                res.violate("C10/hang", f"{where}: decode exceeded 5 s",
+                res.violate("C10/hang", f"{where}: decode consumed more than {WATCHDOG_CPU_S:.0f} s CPU",
                             key=f"C10/hang/{scn['enc']}", narrow=narrow)
             elif st == "ok":
                 outcome = "array"
